@@ -64,12 +64,12 @@ PROPS = {
                 rule="shapes: EVERY code-emitting alternative of the CURRENT assembler grammar x every spelling of its mnemonic table x sampled operands "
                      "(generated from the grammar on each run); L3 = real Preprocessor vs model (byte-identical lines); L4 = the same programs executed by the real "
                      "binary: the real DataParser / Interpreter / PrintParser judge every emitted line (any 'Internal Error' is a violation); non-trivial = accepted program"),
-    "C11": dict(modules=["Emu8086.Props.C11"], runs=[("l3", "spell"), ("l3", "shapes")], gen=["Arch", "ILiterals", "PPGrammar"],
+    "C11": dict(modules=["Emu8086.Props.C11"], runs=[("l3", "spell"), ("l3", "shapes"), ("l3", "operands")], gen=["Arch", "ILiterals", "PPGrammar"],
                 rule="spell: programs rendered from the grammar under two independent spelling choices (case of every keyword/register/mnemonic incl. synonyms, "
                      "radix / leading zeros / negative decimal with the same bit pattern / OFFSET of a label with that offset for every constant, amount and kind of "
                      "white space and line breaks): the real assembler must emit identical code and data lists for both (or refuse both with the same diagnostic) and "
                      "agree with the model; non-trivial = the two renderings differ textually"),
-    "C12": dict(modules=["Emu8086.Props.C12"], runs=[("l3", "data"), ("l4", "data")], gen=["Arch", "ILiterals", "PPGrammar"],
+    "C12": dict(modules=["Emu8086.Props.C12"], runs=[("l3", "data"), ("l4", "data"), ("l2", "mov+xfer")], gen=["Arch", "ILiterals", "PPGrammar"],
                 rule="random SET/DB/DW sequences of all four kinds (values over the full signed/unsigned ranges, arrays 0..65535 elements incl. segment overflow, "
                      "strings with every printable character, segments up to FFFFh so that data crosses the 1 MB wrap); L3: emitted data lines, label offsets, OFFSET "
                      "values vs model; L4: the WHOLE memory image after loading (all non-zero bytes, via the verification hook) and `print mem` output vs the model's loader"),
